@@ -43,7 +43,7 @@ def gen(rng, tier):
         focus.update(comps=True, facilities=True, contention="low", res_abs=True, fac_abs_dense=True, solo=False, fix=False, nested=False,
                      single_task_comps=True, zero_skill=False)
     feasible = rng.random() < 0.35 and not focus.get("fac_abs_dense")
-    return C.maybe_history(rng, C.forward_spec(rng, tier, focus, feasible=feasible), 0.25, reload_prob=0.4)
+    return C.maybe_from_json(rng, C.maybe_history(rng, C.forward_spec(rng, tier, focus, feasible=feasible), 0.25, reload_prob=0.4))
 
 
 def extra_candidates(spec):
